@@ -12,7 +12,7 @@ from .prng import run_seed
 from .props import PROPS
 
 VERIF = build.VERIF
-EVID = os.path.join(VERIF, 'evidence')
+EVID = os.environ.get('ZISIM_EVIDENCE_DIR') or os.path.join(VERIF, 'evidence')
 REPLAYS = os.path.join(VERIF, 'replays')
 
 
